@@ -29,5 +29,5 @@ P("C18",
   trusted=["modelled as an abstract automaton, not verified: the twelve agents' control and data middlewares",
            "harness observation points: port hooks (send/deliver) on the agent's Control and request ports, engine after-event hook for the state sample, "
            "per-agent quiescent/paused predicates read from the exported State (cache/writeback 'paused' = CacheState 4)"],
-  quick_shards=4,
+  quick_shards=8,
   )
